@@ -11,6 +11,7 @@ vlib.build_impl()
 chk = vlib.Check("DEV", "quick", seed)
 g = evalgen.Gen(chk.rng)
 g.wild = 0.2
+g.entry_updates = not os.environ.get('RO')
 cases = []
 for _ in range(n):
     d = evalgen.gen_doc(chk.rng)
